@@ -19,6 +19,7 @@ import (
 	"strings"
 	"time"
 
+	"github.com/BurntSushi/toml"
 	"github.com/robustirc/robustirc/internal/config"
 	"github.com/robustirc/robustirc/internal/ircserver"
 	"github.com/robustirc/robustirc/internal/robust"
@@ -297,6 +298,48 @@ func (m *obsModel) observe(n *e1Node, e *logEntry, outs []outMsg, before *priv) 
 			// C16: an applied update is in force from this position on, with the revision the entry names
 			if after.Revision != msg.Revision {
 				r.violate("C16", "config-not-installed", "config-not-installed", fmt.Sprintf("index %d: parsable config with revision %d applied, revision in force afterwards is %d", e.Index, msg.Revision, after.Revision))
+			}
+			// ... and it is exactly the configuration that was posted (nothing carried over, nothing dropped).
+			// The expectation is decoded from the TOML directly, not through the project's own helper.
+			var posted config.Network
+			if _, derr := toml.Decode(msg.Data, &posted); derr == nil {
+				cfg = posted
+			}
+			want := map[string]string{
+				"Operators":   fmt.Sprint(cfg.IRC.Operators),
+				"Services":    fmt.Sprint(cfg.IRC.Services),
+				"Expiration":  fmt.Sprint(time.Duration(cfg.SessionExpiration)),
+				"MaxSessions": fmt.Sprint(cfg.MaxSessions),
+				"MaxChannels": fmt.Sprint(cfg.MaxChannels),
+				"CaptchaURL":  cfg.CaptchaURL,
+				"CaptchaKey":  fmt.Sprintf("%x", []byte(cfg.CaptchaHMACSecret)),
+				"CaptchaReq":  fmt.Sprint(cfg.CaptchaRequiredForLogin),
+				"Banned":      fmt.Sprint(sortedMap(cfg.Banned)),
+				"Bridges":     fmt.Sprint(sortedMap(cfg.TrustedBridges)),
+			}
+			var ops, svcs []string
+			for _, o := range after.Operators {
+				ops = append(ops, fmt.Sprintf("{%s %s}", o[0], o[1]))
+			}
+			for _, sp := range after.ServicePws {
+				svcs = append(svcs, fmt.Sprintf("{%s}", sp))
+			}
+			got := map[string]string{
+				"Operators":   "[" + strings.Join(ops, " ") + "]",
+				"Services":    "[" + strings.Join(svcs, " ") + "]",
+				"Expiration":  fmt.Sprint(after.Expiration),
+				"MaxSessions": fmt.Sprint(after.MaxSessions),
+				"MaxChannels": fmt.Sprint(after.MaxChannels),
+				"CaptchaURL":  after.CaptchaURL,
+				"CaptchaKey":  fmt.Sprintf("%x", after.CaptchaKey),
+				"CaptchaReq":  fmt.Sprint(after.CaptchaReq),
+				"Banned":      fmt.Sprint(sortedMap(after.Banned)),
+				"Bridges":     fmt.Sprint(sortedMap(after.Bridges)),
+			}
+			for _, k := range []string{"Operators", "Services", "Expiration", "MaxSessions", "MaxChannels", "CaptchaURL", "CaptchaKey", "CaptchaReq", "Banned", "Bridges"} {
+				if got[k] != want[k] {
+					r.violate("C16", "config-not-installed", "config-field-not-installed:"+k, fmt.Sprintf("index %d: after applying the configuration update (revision %d) %s in force is %s, the update says %s", e.Index, msg.Revision, k, got[k], want[k]))
+				}
 			}
 		} else if after.Revision != before.Revision {
 			r.violate("C16", "invalid-config-took-effect", "invalid-config-took-effect", fmt.Sprintf("index %d: unparsable config changed the revision from %d to %d", e.Index, before.Revision, after.Revision))
